@@ -116,6 +116,12 @@ fn data_has_headpair_or_improper(v: &V) -> bool {
             if a.is_pair() {
                 return true;
             }
+            if let V::A(h) = &**a {
+                if h.as_slice() == [1u8] {
+                    // (q . X): X itself may be the form that `a` runs
+                    return data_has_headpair_or_improper(b);
+                }
+            }
             let mut cur: &V = b;
             loop {
                 match cur {
@@ -175,7 +181,8 @@ fn judge(out: &mut Out, stratum: &str, prog: &V, env: &V, sp: Spell, new_mode: b
             let mut sig = None;
             let unimpl = r.consensus.contains("unimplemented operator") != r.stepping.contains("unimplemented operator");
             let legacy_msg = r.stepping.starts_with("Fail(\"Unexpected head form in clvm") || r.stepping.starts_with("Fail(\"bad argument list");
-            if has_headpair_or_improper(prog) || (legacy_msg && r.consensus.starts_with("value") && data_has_headpair_or_improper(prog)) {
+            let stepping_fails_where_clvm_returns = r.consensus.starts_with("value") && r.stepping.starts_with("Fail(");
+            if has_headpair_or_improper(prog) || ((legacy_msg || stepping_fails_where_clvm_returns) && r.consensus.starts_with("value") && data_has_headpair_or_improper(prog)) {
                 // ((X) . args) "operator applied to unevaluated args" syntax and non-nil argument list
                 // terminators: clvm accepts them, the stepping evaluator does not implement them
                 sig = Some("stepping:legacy-head-list-or-improper-arglist".to_string());
